@@ -416,7 +416,7 @@ def main(argv):
         tier = os.environ.get("VERIF_TIER", "quick")
         if "--tier" in argv:
             tier = argv[argv.index("--tier") + 1]
-        rc, _, _, _ = run_check(prop, tier)
+        rc, _, _, _ = run_check(prop, tier, write_evidence=(REPO == "/repo"))
         return rc
     if cmd == "explain":
         with open(argv[2]) as f:
@@ -431,6 +431,9 @@ def main(argv):
             return 1
         print("no longer reported on the current tree")
         return 0
+    if cmd == "selftest":
+        import selftest
+        return selftest.main(argv[2:])
     if cmd == "list":
         pdir = os.path.join(HERE, "props")
         for f in sorted(os.listdir(pdir)):
